@@ -165,7 +165,7 @@ def audit_statements(stmts):
                 continue
             problems.append(f"store set-up executes {text[:80]!r}")
         else:
-            if not re.fullmatch(r"INSERT INTO \w+ VALUES \(\?(, ?\?){5}\)", text, flags=re.I):
+            if not re.fullmatch(r"INSERT INTO \w+( \([\w, ]+\))? VALUES \((\?|:\w+)(, ?(\?|:\w+)){5}\)(, ?\((\?|:\w+)(, ?(\?|:\w+)){5}\))*", text, flags=re.I):
                 problems.append(f"add() executes {text[:80]!r}")
             if up.startswith("INSERT OR"):
                 problems.append("conflict clause on insert")
@@ -178,7 +178,8 @@ def real_sql():
     for key, prefix in (("filter_prefix", "@@P@@"), ("filter_all", None)):
         sql, values = make_query(DEFAULT_TABLE, "@@M@@", prefix, 424242)
         binding = {}
-        for i, v in enumerate(values):
+        # positional parameters (a sequence, bound to `?` in textual order) or named ones (a mapping, bound to `:name`)
+        for i, v in (values.items() if isinstance(values, dict) else enumerate(values)):
             binding[i] = {"@@M@@": "M", "@@P@@": "P", 424242: "n"}.get(v)
             if binding[i] is None:
                 raise ValueError(f"make_query passes an unexpected parameter {v!r}")
@@ -219,6 +220,8 @@ class ModelConnection:
 
     def executemany(self, sql, rows):
         for r in rows:
+            if isinstance(r, dict):  # named parameters: one mapping per row
+                r = [r[c] for c in _COLUMNS]
             if self.fail_after is not None and self.rows_written == self.fail_after:
                 self.interrupted = True
                 raise self.exc("write interrupted")
